@@ -63,7 +63,7 @@ var carriers = []string{"GetBlob", "GetBlobRange", "GetManifest", "GetTag", "Res
 	"PushBlob", "PushBlobChunked", "PushBlobChunkedResume", "MountBlob", "PushManifest",
 	"DeleteBlob", "DeleteManifest", "DeleteTag", "Repositories", "Tags", "Referrers",
 	// errors raised by the backend's BlobWriter rather than by an Interface method ("<call>@<stage>")
-	"Writer@write", "Writer@close", "Writer@commit", "PushBlob@write", "PushBlob@commit",
+	"Writer@write", "Writer@close", "Writer@commit", "PushBlob@write", "PushBlob@commit", "Writer@write+close",
 	// the error of a method on a registry where everything else works
 	"MountBlob@only",
 	// a listing that fails only when the client asks for its second page (page size 2)
@@ -230,16 +230,18 @@ const writerDataLen = 100 << 10
 
 // failWriter is a backend BlobWriter that fails with err at one stage.
 type failWriter struct {
-	stage string
-	err   error
-	size  int64
+	stage  string
+	err    error
+	size   int64
+	failed bool
 }
 
 func (w *failWriter) Write(p []byte) (int, error) {
 	// the Write that completes the content is the one that fails: by then the server has read
 	// the whole request body (a response sent while the client is still writing its request can
 	// get lost in any HTTP/1.1 implementation; that race is not what is examined here)
-	if w.stage == "write" && w.size+int64(len(p)) >= writerDataLen {
+	if (w.stage == "write" || w.stage == "write+close") && w.size+int64(len(p)) >= writerDataLen {
+		w.failed = true
 		return 0, w.err
 	}
 	w.size += int64(len(p))
@@ -249,8 +251,16 @@ func (w *failWriter) Close() error {
 	if w.stage == "close" {
 		return w.err
 	}
+	if w.stage == "write+close" && w.failed {
+		// the upload is in a bad state after the failed write: closing it fails too, with
+		// another error - the one that matters is the first
+		return errAfterFailedWrite
+	}
 	return nil
 }
+
+var errAfterFailedWrite = ociregistry.NewError("the upload is in a bad state", ociregistry.ErrBlobUploadInvalid.Code(), nil)
+
 func (w *failWriter) Size() int64    { return w.size }
 func (w *failWriter) ChunkSize() int { return 0 }
 func (w *failWriter) ID() string     { return "upload-1" }
@@ -600,7 +610,7 @@ func genScript(t *rapid.T) Script {
 var prop = &vt.Prop[Script]{
 	ID:   "C07",
 	Name: "ErrorsAcrossTheWire",
-	Rule: "error values: each of the 15 standard codes, custom codes, no code; optional JSON detail (objects, arrays, scalars, null, spaced, numbers that float64 cannot hold); messages {empty, random UTF-8, beginning with the rendered code, with a status line, with both, stuttering, odd spacing}; 0-3 wrappers from {fmt %w, NewHTTPError(status)} with statuses 400-599 incl. ones without a reason phrase (419, 452, 499, 512, 599); carrier = each of the 18 Interface methods (GET, HEAD, POST, PUT, DELETE and list-based) and errors raised by the backend's BlobWriter at Write, Close or Commit (reached through a chunked writer and through PushBlob), a MountBlob that fails on a registry where everything else works, and tag / repository listings that fail when the second page is asked for or after the first item of a page; sent through 1..3 real server->client hops (a quarter of the time every client goes through ociauth's standard transport without credentials and every registry puts a Basic challenge on its 401 answers), and for every hop count h <= hops; oracle = errors.Is against every standard value unchanged (HEAD carriers: the documented status mapping; ErrRangeInvalid status-based as documented), status on every hop = the specification's for the code, else the error's own HTTP status, else 500, code and detail JSON-equal, message after h hops == message after one hop; non-trivial = >= 2 hops, a wrapper, or a prefix-like message; distinct = (code, wraps, message class, carrier, hops, status)",
+	Rule: "error values: each of the 15 standard codes, custom codes, no code; optional JSON detail (objects, arrays, scalars, null, spaced, numbers that float64 cannot hold); messages {empty, random UTF-8, beginning with the rendered code, with a status line, with both, stuttering, odd spacing}; 0-3 wrappers from {fmt %w, NewHTTPError(status)} with statuses 400-599 incl. ones without a reason phrase (419, 452, 499, 512, 599); carrier = each of the 18 Interface methods (GET, HEAD, POST, PUT, DELETE and list-based) and errors raised by the backend's BlobWriter at Write, Close or Commit (and at Write followed by a different failure of the Close that comes after it) (reached through a chunked writer and through PushBlob), a MountBlob that fails on a registry where everything else works, and tag / repository listings that fail when the second page is asked for or after the first item of a page; sent through 1..3 real server->client hops (a quarter of the time every client goes through ociauth's standard transport without credentials and every registry puts a Basic challenge on its 401 answers), and for every hop count h <= hops; oracle = errors.Is against every standard value unchanged (HEAD carriers: the documented status mapping; ErrRangeInvalid status-based as documented), status on every hop = the specification's for the code, else the error's own HTTP status, else 500, code and detail JSON-equal, message after h hops == message after one hop; non-trivial = >= 2 hops, a wrapper, or a prefix-like message; distinct = (code, wraps, message class, carrier, hops, status)",
 	Gen:  genScript,
 	Run:  run,
 }
@@ -611,7 +621,7 @@ func TestPropErrors(t *testing.T) { vt.Check(t, prop) }
 var propGrid = &vt.Prop[Script]{
 	ID:   "C07",
 	Name: "ErrorGrid",
-	Rule: "complete grid: 15 standard codes + custom + none x 28 carriers x {bare, NewHTTPError(452) wrapper} over 2 hops",
+	Rule: "complete grid: 15 standard codes + custom + none x 29 carriers x {bare, NewHTTPError(452) wrapper} over 2 hops",
 	Run:  run,
 }
 
